@@ -78,7 +78,7 @@ impl Controller {
             park: Mutex::new(ParkState::default()),
             cv: Condvar::new(),
             noter: Mutex::new(None),
-            max_park: Duration::from_secs(40),
+            max_park: Duration::from_secs(120),
             jitter: std::sync::atomic::AtomicU64::new(0),
             hits: std::sync::atomic::AtomicU64::new(0),
         })
